@@ -444,7 +444,6 @@ func c07NumEq(a, b string) (eq bool, note string) {
 }
 
 // c07Oracle evaluates the property on (input, output) with encoding/json; returns "" or the failing clause.
-// allow = number of number lexemes under the trigger of K-C07-1 (each may add one byte).
 func c07Oracle(in, out []byte, cfg c07Cfg) (clause string, detail string) {
 	ti, err := c07Tokens(in)
 	if err != nil {
@@ -484,6 +483,12 @@ func c07Oracle(in, out []byte, cfg c07Cfg) (clause string, detail string) {
 }
 
 // ---------- cases ----------
+
+// regression inputs of the fixed finding K-C07-1 (json.go keeps the lexeme when the repaired result would be longer)
+var c07Expected = map[string]string{
+	"1e-3": "1e-3", "[1e-3]": "[1e-3]", "12e-4": "12e-4", "-1e-3": "-1e-3", "1.234567e-4": "1.234567e-4", "1E-3": "1E-3",
+	"[1E-3, -12e-4]": "[1E-3,-12e-4]", "123e-5": "123e-5", "1.5e-3": "0.0015", "1.25e-3": "0.00125", `{"x":-1e-3}`: `{"x":-1e-3}`,
+}
 
 type c07Case struct {
 	text []byte
@@ -540,7 +545,7 @@ func init() {
 		// fixed regression corpus: test-suite pairs, special lexemes, every string shape, finding inputs
 		for _, s := range []string{`{ "a": [1, 2] }`, `[{ "a": [{"x": null}, true] }]`, `{ "a": 1, "b": 2 }`, `{ "a": 1           , "b": 2 }`,
 			"1.3e1", "1E+03", "0.1", "-0.1", "1.0", "10000", "[]", "{}", "[ ]", "{ }", "[[]]", "[{}]", "{\"a\":{}}", "{\"a\":[]}", " null ", "true", "false",
-			`{"a":1,"a":2,"a":{"a":[]}}`, `[1e-3]`, `{"x":-1e-3}`, `[0.5,-0.5,0.50,-0.50e0]`, "\t[\r\n1\n,\r2 ]\n", `""`, `[[],[]]`, `[{},{}]`, `{"":""}`} {
+			`{"a":1,"a":2,"a":{"a":[]}}`, `[1e-3]`, "1e-3", "12e-4", "-1e-3", "1.234567e-4", "1E-3", "[1E-3, -12e-4]", "123e-5", "1.5e-3", "1.25e-3", `{"x":-1e-3}`, `[0.5,-0.5,0.50,-0.50e0]`, "\t[\r\n1\n,\r2 ]\n", `""`, `[[],[]]`, `[{},{}]`, `{"":""}`} {
 			add([]byte(s), "fixed")
 		}
 		for _, s := range c07Special {
@@ -739,12 +744,16 @@ func init() {
 		// ===== stages (ii) + (iii): bytes tie and the property on the real output =====
 		stB := c.R.StartStage("bytes", "json.Minifier{Precision,KeepNumbers}.Minify (public API; reader kinds: bytes.Buffer used in place, bytes.Reader, one-byte reader) vs Lean model minifyText with the real minify.Number result of every number lexeme as table; configs KeepNumbers on/off, Precision -1,0,1,2,3,6; non-trivial = output differs from input (whitespace removed or a number rewritten) and the text has a container or a rewritten number")
 		stP := c.R.StartStage("property", "the property on the implementation's output: encoding/json token streams of input and output (UseNumber; order, duplicate keys), numbers exactly equal at precision<=0 (normalised decimals, cross-checked with big.Rat), same structure at precision>0, len(out)<=len(in), KeepNumbers => lexemes identical; plus the Lean spec side spec.c07.holds (parseJ, jvEq bytewise strings); non-trivial = a number lexeme was rewritten or whitespace was removed")
+		type hypCase struct {
+			lex, res []byte
+			prec     int
+		}
+		hyp := map[string]hypCase{}
 		type job struct {
 			ci    int
 			cfg   c07Cfg
 			out   []byte
 			table [][]byte
-			allow int
 			mode  int
 		}
 		var jobs []job
@@ -771,10 +780,10 @@ func init() {
 					c.R.Add(h.Finding{Stage: stP.Name, Kind: "fail", What: "Minify returns an error on a valid JSON text", Input: h.Q(cs.text), Hex: h.Hex(cs.text), Config: cfg.String(), Impl: err.Error()})
 					continue
 				}
-				// table of real Number results, and the K-C07-1 allowance
+				// table of real Number results
 				var table [][]byte
 				seen := map[string]bool{}
-				allow, changed, bigExp := 0, false, false
+				changed, bigExp := false, false
 				for _, e := range infos[i].evs {
 					if e.gram != byte(pjson.NumberGrammar) {
 						continue
@@ -784,8 +793,9 @@ func init() {
 						c.R.Add(h.Finding{Stage: stB.Name, Kind: "crash", What: "minify.Number: " + crash, Input: h.Q(e.text), Config: cfg.String()})
 						continue
 					}
-					if !cfg.keep && c07StartsDot(res) && len(res) == len(e.text) {
-						allow++
+					hk := fmt.Sprintf("%d|%s", cfg.prec, e.text)
+					if _, ok := hyp[hk]; !ok {
+						hyp[hk] = hypCase{append([]byte{}, e.text...), res, cfg.prec}
 					}
 					if !cfg.keep && !bytes.Equal(res, e.text) {
 						changed = true
@@ -817,16 +827,16 @@ func init() {
 					}
 					c.R.Add(h.Finding{Stage: stP.Name, Kind: kind, What: clause, Input: h.Q(cs.text), Hex: h.Hex(cs.text), Config: cfg.String(), Impl: h.Q(out), Model: detail})
 				}
-				if len(out) > len(cs.text)+allow {
+				if len(out) > len(cs.text) {
 					c.R.Add(h.Finding{Stage: stP.Name, Kind: "fail", What: "output longer than input", Input: h.Q(cs.text), Hex: h.Hex(cs.text), Config: cfg.String(), Impl: h.Q(out),
 						Model: fmt.Sprintf("len(out)=%d len(in)=%d", len(out), len(cs.text))})
-				} else if len(out) > len(cs.text) {
-					c.R.ExcludedKnown++ // K-C07-1: length clause only; everything else is still checked
-					stP.Tag("known=K-C07-1")
 				}
-				jobs = append(jobs, job{i, cfg, out, table, allow, mode})
+				if want, ok := c07Expected[string(cs.text)]; ok && !cfg.keep && cfg.prec <= 0 && string(out) != want {
+					c.R.Add(h.Finding{Stage: stP.Name, Kind: "diff", What: "regression input (fixed finding K-C07-1): output differs from the recorded one (a longer output is reported separately as fail)", Input: h.Q(cs.text), Hex: h.Hex(cs.text), Config: cfg.String(), Impl: h.Q(out), Model: h.Q([]byte(want))})
+				}
+				jobs = append(jobs, job{i, cfg, out, table, mode})
 				linesB = append(linesB, "model.c07.minify "+h.Hex(cs.text)+" "+h.Bool(cfg.keep)+" "+h.Int(int64(cfg.prec))+" "+h.List(table))
-				linesP = append(linesP, "spec.c07.holds "+h.Hex(cs.text)+" "+h.Hex(out)+" "+h.Bool(cfg.keep)+" "+h.Int(int64(mode))+" "+h.List(table))
+				linesP = append(linesP, "spec.c07.holds "+h.Hex(cs.text)+" "+h.Hex(out)+" "+h.Bool(cfg.keep)+" "+h.Int(int64(mode)))
 			}
 		}
 		repB, err := h.Eval(linesB)
@@ -852,10 +862,6 @@ func init() {
 			}
 			switch string(v) {
 			case "ok":
-			case "length-known": // the Lean trigger numGrows (single source of truth) must agree with the Go-side allowance
-				if len(j.out) <= len(cs.text) || len(j.out) > len(cs.text)+j.allow {
-					c.R.Add(h.Finding{Stage: stP.Name, Kind: "diff", What: "trigger numGrows (Lean) and the harness allowance for K-C07-1 disagree", Input: h.Q(cs.text), Hex: h.Hex(cs.text), Config: j.cfg.String(), Impl: h.Q(j.out)})
-				}
 			case "invalid-input":
 				c.R.Add(h.Finding{Stage: stP.Name, Kind: "diff", What: "spec parser rejects a text that encoding/json accepts", Input: h.Q(cs.text), Hex: h.Hex(cs.text)})
 			default:
@@ -864,6 +870,37 @@ func init() {
 		}
 		stB.End()
 		stP.End()
+
+		// ===== hypotheses of the theorems on `num`, checked on the real minify.Number =====
+		{
+			st := c.R.StartStage("num-hypotheses", "NumGrammar (result in the minifier grammar, not longer), NumDotShrinks (lexeme without exponent and result starting with `.`/`-.` => strictly shorter), NumValue (precision<=0: equal value) evaluated by the Lean spec (spec.c07.numHyp) on the real minify.Number result for every distinct (number lexeme, precision) met above, incl. all enumerated lexemes x all precisions; non-trivial = result differs from the lexeme")
+			keys := make([]string, 0, len(hyp))
+			for k := range hyp {
+				keys = append(keys, k)
+			}
+			sort.Strings(keys)
+			lines := make([]string, len(keys))
+			for i, k := range keys {
+				hc := hyp[k]
+				lines[i] = "spec.c07.numHyp " + h.Hex(hc.lex) + " " + h.Hex(hc.res) + " " + h.Int(int64(hc.prec))
+			}
+			rep, err := h.Eval(lines)
+			if err != nil {
+				return err
+			}
+			for i, k := range keys {
+				hc := hyp[k]
+				st.Count(fmt.Sprintf("Number(%s,%d)=%s", hc.lex, hc.prec, hc.res), !bytes.Equal(hc.lex, hc.res))
+				if c07StartsDot(hc.res) {
+					st.Tag("result-starts-with-dot")
+				}
+				v, ok, msg := h.DecodeReply(rep[i])
+				if !ok || string(v) != "ok" {
+					c.R.Add(h.Finding{Stage: st.Name, Kind: "diff", What: "hypothesis on minify.Number does not hold: " + string(v) + msg, Input: h.Q(hc.lex), Hex: h.Hex(hc.lex), Config: fmt.Sprintf("Precision=%d", hc.prec), Impl: h.Q(hc.res)})
+				}
+			}
+			st.End()
+		}
 		c.R.Note("exhaustive part: all %d JSON number lexemes of length <= %d over {0,1,5,9,-,+,.,e,E} (as top-level value or array element) x 7 configs", nEnum, L)
 
 		// ===== known findings =====
